@@ -988,3 +988,137 @@ Proof.
   repeat split; try lia.
   intros E. rewrite E in E1. discriminate.
 Qed.
+
+(* ---------- when the builder does not refuse ---------- *)
+(* C06 allows an error; this section says when there is none: every definition valid and no
+   requested field wider than one request.  (Conversely, by [split_c06] there is no panic, so an
+   error means an invalid definition or such a field.) *)
+Lemma group_fields_total fields oc : forall gs,
+  Forall (fun f => validate f = Ok tt) fields -> exists gs', group_fields fields oc gs = Ok gs'.
+Proof.
+  induction fields as [|f rest IH]; intros gs Hv; [eexists; reflexivity|].
+  cbn [group_fields]. rewrite (Forall_inv Hv). cbn [bind].
+  destruct (oc && negb (f_type f =? 14)); [apply IH; exact (Forall_inv_tail Hv)|].
+  destruct (negb oc && (f_type f =? 14)); apply IH; exact (Forall_inv_tail Hv).
+Qed.
+
+Lemma requests_of_batches_total t bs :
+  Forall (fun b => 1 <= b_qty b <= max_read (t / 2 + 1)) bs -> exists rs, requests_of_batches t bs = Ok rs.
+Proof.
+  induction bs as [|b rest IH]; intros H; [eexists; reflexivity|].
+  cbn [requests_of_batches]. unfold request_of_batch, new_read.
+  pose proof (Forall_inv H) as Hb. cbn beta in Hb.
+  replace ((b_qty b =? 0) || (max_read (t / 2 + 1) <? b_qty b)) with false by lia. cbn [bind].
+  destruct (IH (Forall_inv_tail H)) as [rs ->]. cbn [bind]. eexists. reflexivity.
+Qed.
+
+Definition fine (limit : N) (g : ggroup) : Prop :=
+  snd g <> [] /\ Forall (fun s => ediff (fst g) s <= limit /\ fst g <= s_addr s /\ 1 <= s_size s) (snd g).
+
+Lemma fine_qty limit g : fine limit g -> 1 <= qty_of (fst g) (snd g) <= limit.
+Proof.
+  intros [Hne Hall]. split.
+  - destruct (snd g) as [|s0 r] eqn:E; [contradiction|].
+    pose proof (qty_of_ge (fst g) (s0 :: r) s0 (or_introl eq_refl)) as Hge.
+    pose proof (Forall_inv Hall) as H0. cbn beta in H0. unfold ediff in *. lia.
+  - clear Hne. unfold qty_of.
+    assert (G : forall l acc, acc <= limit ->
+              Forall (fun s => ediff (fst g) s <= limit /\ fst g <= s_addr s /\ 1 <= s_size s) l ->
+              fold_left (fun q s => N.max q (ediff (fst g) s)) l acc <= limit).
+    { induction l as [|x l IH]; intros acc Ha Hl; [exact Ha|]. cbn [fold_left]. apply IH.
+      - pose proof (Forall_inv Hl) as Hx. cbn beta in Hx. lia.
+      - exact (Forall_inv_tail Hl). }
+    apply G; [lia|exact Hall].
+Qed.
+
+Lemma gscan_fine limit slots : forall first cur acc,
+  limit < 65535 ->
+  Forall (fun s => slot_typed s /\ 1 <= s_size s <= limit) slots ->
+  StronglySorted addr_le slots ->
+  Forall (fun s => first <= s_addr s) slots ->
+  Forall (fine limit) acc ->
+  Forall (fun s => ediff first s <= limit /\ first <= s_addr s /\ 1 <= s_size s) cur ->
+  (cur = [] -> exists s rest, slots = s :: rest /\ first = s_addr s) ->
+  Forall (fine limit) (gscan limit slots first cur acc).
+Proof.
+  induction slots as [|s rest IH]; intros first cur acc Hlim Hsl Hsort Hge Hacc Hcur Hempty; cbn [gscan].
+  - apply Forall_app. split; [exact Hacc|]. constructor; [|constructor]. split; [|exact Hcur].
+    cbn [snd]. intros E. destruct (Hempty E) as [s [r [X _]]]. discriminate.
+  - pose proof (Forall_inv Hsl) as [[Ha Hz] Hsz]. pose proof (Forall_inv_tail Hsl) as Hsl'.
+    pose proof (Forall_inv Hge) as Hf. pose proof (Forall_inv_tail Hge) as Hge'.
+    pose proof (sorted_head_le _ _ Hsort) as Hhd.
+    assert (Hsort' : StronglySorted addr_le rest) by (inversion Hsort; assumption).
+    pose proof (diffm_eq first s Ha Hz Hf) as Hd.
+    destruct (limit <? diffm first s) eqn:E.
+    + apply IH; auto.
+      * apply Forall_app. split; [exact Hacc|]. constructor; [|constructor]. split; [|exact Hcur].
+        cbn [snd]. intros Ec. destruct (Hempty Ec) as [s' [r' [X Y]]]. inversion X. subst s' r'.
+        unfold ediff in Hd. lia.
+      * constructor; [|constructor]. unfold ediff. lia.
+      * discriminate.
+    + apply IH; auto.
+      * apply Forall_app. split; [exact Hcur|]. constructor; [|constructor]. unfold ediff in *. lia.
+      * intros Ec. destruct cur; discriminate.
+Qed.
+
+Lemma batches_of_group_qty g :
+  group_ok g -> Forall slot_typed (g_slots g) ->
+  Forall (fun s => 1 <= s_size s <= address_limit (g_coils g)) (g_slots g) ->
+  Forall (fun b => 1 <= b_qty b <= address_limit (g_coils g)) (batches_of_group g).
+Proof.
+  intros [Hok Hne] Hty Hsz. destruct (sort_slots_nonempty _ Hne) as [s0 [rest Hs]].
+  rewrite (batches_of_group_ghost g s0 rest Hs Hty).
+  assert (Hsorted : StronglySorted addr_le (s0 :: rest)) by (rewrite <- Hs; apply sort_slots_sorted).
+  assert (Hfine : Forall (fine (address_limit (g_coils g)))
+                    (gscan (address_limit (g_coils g)) (s0 :: rest) (s_addr s0) [] [])).
+  { apply gscan_fine; auto.
+    - apply address_limit_small.
+    - rewrite <- Hs. eapply Permutation_Forall; [apply Permutation_sym; apply sort_slots_perm|].
+      apply Forall_forall. intros s Hin. rewrite Forall_forall in Hty, Hsz. split; [apply Hty|apply Hsz]; exact Hin.
+    - constructor; [lia|]. apply sorted_head_le. exact Hsorted.
+    - intros _. eauto. }
+  apply Forall_forall. intros b Hb. apply in_map_iff in Hb. destruct Hb as [gg [<- Hin]].
+  rewrite Forall_forall in Hfine. apply (fine_qty _ gg (Hfine gg Hin)).
+Qed.
+
+Lemma span_ge1 f : validate f = Ok tt -> 1 <= span f.
+Proof.
+  intros Hv. destruct (validate_ok f Hv) as [_ [_ [_ Hl]]]. unfold span, T_UINT32, T_INT32, T_FLOAT32, T_UINT64, T_INT64, T_FLOAT64, T_STRING.
+  repeat match goal with |- context [if ?c then _ else _] => destruct c eqn:? end; try lia.
+Qed.
+
+Theorem split_succeeds fields t : t < 8 -> Forall field_typed fields ->
+  Forall (fun f => validate f = Ok tt) fields ->
+  Forall (fun f => wanted t f = true -> span f <= kind_limit (target_coils t)) fields ->
+  exists reqs, split fields t = Ok reqs.
+Proof.
+  intros Ht Hty Hv Hw. unfold split, group_for_single_connection.
+  destruct (group_fields_total fields (t <? 4) [] Hv) as [groups G]. rewrite G. cbn [bind].
+  destruct (group_fields_spec _ _ _ _ G) as [P [A [B C]]].
+  cbn [members_of_groups map concat app] in P.
+  assert (Hok : Forall group_ok groups) by (apply A; constructor).
+  assert (Hco : Forall (fun g => g_coils g = (t <? 4)) groups) by (apply C; constructor).
+  assert (Hin : forall g s f, In g groups -> In s (g_slots g) -> In f (s_fields s) ->
+                In f fields /\ wanted t f = true).
+  { intros g s f Hg Hs Hf.
+    assert (Hm : In f (members_of_groups groups)).
+    { eapply members_of_groups_in; [exact Hg|]. apply in_members_of_slots. exists s. split; assumption. }
+    pose proof (Permutation_in f P Hm) as Hfl. apply filter_In in Hfl. exact Hfl. }
+  apply requests_of_batches_total. unfold batch_to_requests.
+  apply Forall_forall. intros b Hb. apply in_flat_map in Hb. destruct Hb as [g [Hg Hb]].
+  rewrite max_read_target by assumption.
+  rewrite Forall_forall in Hok, Hco, Hty, Hv, Hw. pose proof (Hok g Hg) as Hokg. pose proof (Hco g Hg) as Hcg.
+  assert (Hslots : forall s, In s (g_slots g) -> slot_typed s /\ 1 <= s_size s <= address_limit (g_coils g)).
+  { intros s Hs. destruct Hokg as [Hsl _]. rewrite Forall_forall in Hsl. pose proof (Hsl s Hs) as Hso.
+    split.
+    - apply (slot_typed_of _ _ _ Hso). apply Forall_forall. intros f Hf. apply Hty. apply (Hin g s f Hg Hs Hf).
+    - destruct Hso as [_ Hex]. apply Exists_exists in Hex. destruct Hex as [f [Hf Hsz]].
+      destruct (Hin g s f Hg Hs Hf) as [I W].
+      destruct (Hty f I) as [_ [_ [_ [_ [_ [Hl _]]]]]].
+      rewrite <- Hsz, (register_size_span f Hl). rewrite Hcg.
+      change (address_limit (t <? 4)) with (kind_limit (target_coils t)).
+      split; [apply span_ge1; apply Hv; exact I|apply Hw; assumption]. }
+  assert (Hq : Forall (fun b => 1 <= b_qty b <= address_limit (g_coils g)) (batches_of_group g)).
+  { apply batches_of_group_qty; [exact Hokg| |]; apply Forall_forall; intros s Hs; apply Hslots; exact Hs. }
+  rewrite Forall_forall in Hq. specialize (Hq b Hb). rewrite Hcg in Hq. exact Hq.
+Qed.
